@@ -584,7 +584,19 @@ func runMetamorphic(t *testing.T, st *Stats, cfg coreCfg, base int64) {
 				if i < len(b2) {
 					y = b2[i]
 				}
-				st.Violate(Violation{What: fmt.Sprintf("[prune-visible] corpus history %s: running the maintenance jobs changed what clients observe: step %d with jobs %q, without %q", filepath.Base(cf), i, x, y), Replay: cf, FoundInput: true, Sig: "prune-visible"})
+				sig := "prune-visible"
+				for _, op := range rf.Ops {
+					if op.K == "seek_time" || op.K == "seek_snap" {
+						sig = "prune-visible-after-seek"
+					}
+				}
+				if !knownSeen[sig] {
+					st.Violate(Violation{What: fmt.Sprintf("[%s] corpus history %s: running the maintenance jobs changed what clients observe: step %d with jobs %q, without %q", sig, filepath.Base(cf), i, x, y), Replay: cf, FoundInput: true, Sig: sig})
+				}
+				if strings.Contains(","+os.Getenv("VERIF_KNOWN_SIGS")+",", ","+sig+",") {
+					knownSeen[sig] = true
+					break
+				}
 				return
 			}
 		}
